@@ -262,6 +262,34 @@ def _region(f, st):
     return best
 
 
+def has_unlinked_tag_loop(f, rec, tags_attr, var=None):
+    """the function walks the record's tag mapping (a loop or comprehension over rec.tags / .keys() / .items() or an alias of
+    it) into something other than the string `var` the template rule follows (another accumulator, a list that is joined
+    later): used when a template shows no repetition, to tell `no tags are written` from `written in a way not followed`."""
+    base = f"{rec}.{tags_attr}"
+    aliases = {base}
+    for st in walk_stmts(f.node.body):
+        if isinstance(st, ast.Assign) and len(st.targets) == 1 and isinstance(st.targets[0], ast.Name) and base in norm(st.value):
+            aliases.add(st.targets[0].id)
+
+    def over_tags(it):
+        t = norm(it)
+        return any(t == a or t.startswith(a + ".") or t.startswith(a + "[") or f"({a}" in t for a in aliases)
+
+    for st in walk_stmts(f.node.body):
+        if isinstance(st, ast.For) and over_tags(st.iter):
+            sinks = {norm(x.target) for x in ast.walk(st) if isinstance(x, ast.AugAssign)} | {norm(x.func.value) for x in ast.walk(st) if isinstance(x, ast.Call) and isinstance(x.func, ast.Attribute) and x.func.attr in ("append", "extend", "write")}
+            if sinks and var is not None and var not in sinks:
+                return True
+        elif isinstance(st, (ast.Assign, ast.AugAssign, ast.Expr, ast.Return)):
+            comps = [c for c in ast.walk(st) if isinstance(c, ast.comprehension) and over_tags(c.iter)]
+            if comps:
+                tgt = norm(st.targets[0]) if isinstance(st, ast.Assign) else (norm(st.target) if isinstance(st, ast.AugAssign) else None)
+                if tgt is not None and var is not None and tgt != var:
+                    return True
+    return False
+
+
 def templates_of(ctx, f, rec, n, tags_attr, rule):
     st = _stmt_containing(f, n)
     if st is None:
